@@ -8,11 +8,11 @@ VARIABLE acts
 gvars == <<st, acts>>
 
 AllActs ==
-    {A("Write", ss, f, "", {}) : ss \in 1..NSS, f \in Formats}
-    \cup {A(n, 0, "", r, {}) : n \in {"Pull", "Done", "CallbackError", "RemoveBegin", "RemoveClose", "RemoveEnd"},
+    {A("Write", ss, f, "", {}, k) : ss \in 1..NSS, f \in Formats, k \in Kinds}
+    \cup {A(n, 0, "", r, {}, "") : n \in {"Pull", "Done", "CallbackError", "RemoveBegin", "RemoveClose", "RemoveEnd"},
                                r \in Readers}
-    \cup {A("AddReader", 0, "", r, S) : r \in Readers, S \in SubChoices}
-    \cup {A("Switch", 0, "", "", {})}
+    \cup {A("AddReader", 0, "", r, S, "") : r \in Readers, S \in SubChoices}
+    \cup {A("Switch", 0, "", "", {}, "")}
 
 GInit == Init /\ acts = <<>>
 GNext == \E x \in AllActs : Do(x) /\ acts' = Append(acts, x)
